@@ -37,6 +37,18 @@ fn module(ctx: Arc<Ctx>) -> RpcModule<Arc<Ctx>> {
 		q
 	})
 	.unwrap();
+	// the same, answering with 12 MB: the answer is "produced but not yet handed to the transport" for as long as the peer reads slowly
+	m.register_async_method("gated_big", |p, ctx, _| async move {
+		let q: u64 = p.one().unwrap_or(0);
+		ctx.tracer.ev(json!({"ev": "HStart", "q": q}));
+		let gate = ctx.gates.lock().remove(&q);
+		if let Some(g) = gate {
+			let _ = g.await;
+		}
+		ctx.tracer.ev(json!({"ev": "HFinish", "q": q}));
+		"x".repeat(12 << 20)
+	})
+	.unwrap();
 	m
 }
 
@@ -113,7 +125,10 @@ async fn scenario(rng: &mut StdRng, sc: usize) -> Vec<Value> {
 	// a quarter of the scenarios run with WebSocket pings every few milliseconds (the peers answer them while they read): the
 	// graceful drain then sees Pong frames while it waits for the handlers
 	let pinging = sc % 4 == 1;
-	let cfg = RigCfg { buf_cap: 1, max_conns: 10, ping_ms: if pinging { Some((3, 60_000)) } else { None }, ..Default::default() };
+	// On the listener path, every other scenario is "one slow HTTP reader and nothing else": a 12 MB answer that the peer reads
+	// only after the stop - the answer is produced, not yet handed to the transport, and no other connection is open
+	let big_http = use_server && sc % 6 == 5;
+	let cfg = RigCfg { buf_cap: 1, max_conns: 10, max_resp: 64 << 20, ping_ms: if pinging { Some((3, 60_000)) } else { None }, ..Default::default() };
 	let (mut mode, handle) = if use_server {
 		let server = jsonrpsee_server::Server::builder().set_config(cfg.server_config()).build("127.0.0.1:0").await.expect("bind loopback");
 		let addr = server.local_addr().unwrap();
@@ -139,8 +154,8 @@ async fn scenario(rng: &mut StdRng, sc: usize) -> Vec<Value> {
 		t2.ev(json!({"ev": "StoppedResolved"}));
 	});
 	// ---- connections
-	let n_ws = rng.random_range(1..3u64);
-	let with_http = rng.random_bool(0.6);
+	let n_ws = if big_http { 0 } else { rng.random_range(1..3u64) };
+	let with_http = big_http || rng.random_bool(0.6);
 	let mut ws_tx: HashMap<u64, WsTx> = HashMap::new();
 	let mut readers = vec![];
 	for c in 1..=n_ws {
@@ -219,6 +234,12 @@ async fn scenario(rng: &mut StdRng, sc: usize) -> Vec<Value> {
 			}
 		}
 	}
+	if big_http {
+		plan = vec![Act::Http, Act::Gate(5), Act::Stop];
+	}
+	let (resume_tx, resume_rx) = oneshot::channel::<()>();
+	let mut resume_tx = Some(resume_tx);
+	let mut resume_rx = Some(resume_rx);
 	let mut stopped_requested = false;
 	let mut http_task = None;
 	for act in plan {
@@ -237,35 +258,62 @@ async fn scenario(rng: &mut StdRng, sc: usize) -> Vec<Value> {
 				if let Some(g) = gate_tx.remove(&q) {
 					let _ = g.send(());
 				}
+				if big_http {
+					tokio::time::sleep(Duration::from_millis(150)).await;
+				}
 			}
 			Act::Http => {
 				if stopped_requested {
 					continue; // the driver does not open new connections after its own stop (that is the after-stop probe's job)
 				}
-				let Some(mut client) = mode.connect().await else { continue };
+				let client: Option<BoxIo> = if big_http {
+					// a peer with a small receive buffer that reads slowly
+					match &mode {
+						Mode::Server { addr } => {
+							let sock = tokio::net::TcpSocket::new_v4().unwrap();
+							let _ = sock.set_recv_buffer_size(16 * 1024);
+							sock.connect(*addr).await.ok().map(|s| Box::new(s) as BoxIo)
+						}
+						_ => mode.connect().await,
+					}
+				} else {
+					mode.connect().await
+				};
+				let Some(mut client) = client else { continue };
 				tracer.ev(json!({"ev": "Open", "c": 3}));
 				tracer.ev(json!({"ev": "PeerSend", "q": 5}));
-				let body = r#"{"jsonrpc":"2.0","id":5,"method":"gated","params":[5]}"#;
+				let body = format!(r#"{{"jsonrpc":"2.0","id":5,"method":"{}","params":[5]}}"#, if big_http { "gated_big" } else { "gated" });
 				let req = format!("POST / HTTP/1.1\r\nHost: localhost\r\nContent-Type: application/json\r\nContent-Length: {}\r\n\r\n{}", body.len(), body);
 				let _ = client.write_all(req.as_bytes()).await;
 				let t4 = tracer.clone();
+				let wait_for = if big_http { resume_rx.take() } else { None };
 				http_task = Some(tokio::spawn(async move {
-					let mut buf = vec![];
-					let mut chunk = vec![0u8; 4096];
-					let mut got = false;
+					let mut buf: Vec<u8> = vec![];
+					let mut chunk = vec![0u8; 65536];
+					let mut wait_for = wait_for;
+					let mut complete = false;
 					loop {
 						match tokio::time::timeout(WAIT, client.read(&mut chunk)).await {
 							Ok(Ok(n)) if n > 0 => {
 								buf.extend_from_slice(&chunk[..n]);
-								if !got && String::from_utf8_lossy(&buf).contains("\"id\":5") {
-									got = true;
-									t4.ev(json!({"ev": "Recv", "q": 5}));
+								// the answer has been received when the whole body announced by Content-Length is there
+								if let Some(h) = buf.windows(4).position(|w| w == b"\r\n\r\n") {
+									let head = String::from_utf8_lossy(&buf[..h]).to_ascii_lowercase();
+									let cl: Option<usize> = head.lines().find_map(|l| l.strip_prefix("content-length:").and_then(|v| v.trim().parse().ok()));
+									if !complete && cl.is_some_and(|cl| buf.len() >= h + 4 + cl) {
+										complete = true;
+										t4.ev(json!({"ev": "Recv", "q": 5}));
+									}
+								}
+								if let Some(w) = wait_for.take() {
+									// the slow reader: it has the beginning of the answer and takes its time over the rest
+									let _ = w.await;
 								}
 							}
 							_ => break,
 						}
 					}
-					t4.ev(json!({"ev": "Eof", "c": 3}));
+					t4.ev(json!({"ev": "Eof", "c": 3, "bytes": buf.len(), "complete": complete}));
 				}));
 			}
 			Act::Stop => {
@@ -284,8 +332,17 @@ async fn scenario(rng: &mut StdRng, sc: usize) -> Vec<Value> {
 					// let a few ping/pong rounds pass while the connections drain
 					tokio::time::sleep(Duration::from_millis(15)).await;
 				}
+				if big_http {
+					tokio::time::sleep(Duration::from_millis(250)).await;
+					if let Some(r) = resume_tx.take() {
+						let _ = r.send(());
+					}
+				}
 			}
 		}
+	}
+	if let Some(r) = resume_tx.take() {
+		let _ = r.send(());
 	}
 	// open every gate that is still closed, read everything, wait for `stopped`
 	pause(rng.random_range(0..6)).await;
